@@ -88,17 +88,33 @@ class Audit:
         return ev
 
 
+CTX_CACHE = {}
+
+
 def build_context(root, lab_root):
     from taskchain.config import Context
     srcs = root.get('context')
     if not srcs:
         return None
+    if root.get('context_reuse'):
+        # the caller keeps ONE context object (dict / list / Context) and hands it to every Config it builds in this process
+        ck = json.dumps([srcs, root.get('context_single', True)], sort_keys=True)
+        if ck in CTX_CACHE:
+            return CTX_CACHE[ck]
+        ctx = build_context({k: v for k, v in root.items() if k != 'context_reuse'}, lab_root)
+        CTX_CACHE[ck] = ctx
+        return ctx
     from .emit import use_string
 
     def file_abs(f):
         return str(Path(lab_root) / f)
     out = []
     for s in srcs:
+        sk = json.dumps(s, sort_keys=True)
+        if root.get('context_reuse_sources') and sk in CTX_CACHE:
+            out.append(CTX_CACHE[sk])
+            continue
+        n_before = len(out)
         if s['kind'] == 'file':
             out.append(file_abs(s['file']) if not s.get('as_path') else Path(file_abs(s['file'])))
         else:
@@ -109,6 +125,8 @@ def build_context(root, lab_root):
                 out.append(Context(data=d, name=s.get('name', 'ctxobj')))
             else:
                 out.append(d)
+        if root.get('context_reuse_sources') and len(out) > n_before:
+            CTX_CACHE[sk] = out[-1]
     if len(out) == 1 and root.get('context_single', True):
         return out[0]
     return out
